@@ -7,6 +7,7 @@ import (
 
 	"github.com/graphql-go/graphql/language/ast"
 	"github.com/graphql-go/graphql/language/printer"
+	"github.com/graphql-go/graphql/language/visitor"
 )
 
 // normalizeDocument walks the given operation in `doc`, replacing
@@ -87,6 +88,14 @@ func normalizeDocument(schema *Schema, doc *ast.Document, operationName string) 
 			ctx.taken[vd.Variable.Name.Value] = true
 		}
 	}
+	// ... and every variable the document merely USES: defining an undefined `$__pcv0` would turn a request that
+	// NoUndefinedVariables rejects into a valid one.
+	visitor.Visit(doc, &visitor.VisitorOptions{Enter: func(p visitor.VisitFuncParams) (string, interface{}) {
+		if v, ok := p.Node.(*ast.Variable); ok && v != nil && v.Name != nil {
+			ctx.taken[v.Name.Value] = true
+		}
+		return visitor.ActionNoChange, nil
+	}}, nil)
 
 	newOp := cloneOperation(op)
 	ctx.normalizeSelectionSet(newOp.SelectionSet, rootType)
